@@ -24,6 +24,9 @@ BOUNDS = {"quick": dict(dimsets=["r2", "T2_r2", "r2_p3u", "s1_r2_p2"], layouts="
                         flags="all four combinations"),
           "thorough": dict(dimsets=["r2", "t2i", "T2_r2", "r2_p3u", "s1_r2_p2", "T2_r2_p2"], layouts="as quick", faults="every single fault and every pair at every position (frames <= 8 rows)", flags="all four combinations")}
 OPTS = {"quick": dict(shadow_every=25, max_paths=300, max_depth=600), "thorough": dict(shadow_every=100, max_paths=1000, max_depth=1500)}
+# rows with unknown labels get NaN positions: the float64 path casts them to an integer silently where the object path would
+# raise, so these configurations are always run once more on the unstubbed float64 code as well (shadow, 2.5)
+SHADOW_ALWAYS = lambda cfg: any(f[0].startswith(("relabel", "extra_row")) for f in cfg.get("faults", []))
 FLAGS = [(False, False), (True, False), (False, True), (True, True)]  # (allow_missing, allow_extra)
 
 
@@ -49,6 +52,8 @@ def _single_faults(name, layout):
         return out
     for i in range(n):
         out += [("drop", i), ("dup", i), ("dup_other_value", i), ("relabel", i), ("blank_nan", i), ("blank_none", i), ("extra_row", i)]
+        if i in (0, n - 1):
+            out += [("relabel_falsy", i), ("extra_row_falsy", i)]
         if any(s[3] is int for s in spec):
             out.append(("dup_retyped", i))  # the same labels once more, the integer-typed one stored as text
     for k, s in enumerate(spec):
@@ -74,7 +79,7 @@ def configs(tier, seed):
                         continue
                     fk = "+".join("_".join(map(str, f)) for f in fs) or "none"
                     out.append(dict(h="faults", op=layout, key=f"faults/{name}/{layout}/{fk}/am={int(am)}/ae={int(ae)}", ds=name, layout=layout, faults=[list(f) for f in fs], am=am, ae=ae))
-                    if layout in ("long_cols", "long_cols_letters") and any(f[0] in ("extra_row", "dup", "dup_other_value", "dup_retyped") for f in fs) and (len(fs) == 1 or tier == "thorough" or hash(str(fs)) % 3 == 0):
+                    if layout in ("long_cols", "long_cols_letters") and any(f[0] in ("extra_row", "extra_row_falsy", "dup", "dup_other_value", "dup_retyped") for f in fs) and (len(fs) == 1 or tier == "thorough" or hash(str(fs)) % 3 == 0):
                         # the same frame with the row labels pd.concat leaves behind (added rows repeat labels of the table)
                         out.append(dict(h="faults", op=layout + "_concat", key=f"faults/{name}/{layout}/{fk}/am={int(am)}/ae={int(ae)}/rowlabels=concat", ds=name, layout=layout, faults=[list(f) for f in fs], am=am, ae=ae, rowlabels="concat"))
         # two imports in one process over same-named dimensions with other item orders (no state may leak)
@@ -96,7 +101,10 @@ def ctx_setup(cfg, c):
     c.cands = tuple(numeric_items(cfg["ds"]))
 
 
-def _unknown_item(s):
+def _unknown_item(s, falsy=False):
+    if falsy:
+        # an unknown label that is falsy in Python: period / age 0, a blank text label
+        return 0 if s[3] is int else ""
     return 999 if s[3] is int else ("zz_unknown")
 
 
@@ -135,14 +143,14 @@ def _build(cfg, w):
                 adds.append([base[f[1]][0], fresh(f"dupval{f[1]}", 77.5)])
             elif f[0] == "dup_retyped":
                 adds.append([tuple(str(l) if sp[3] is int else l for l, sp in zip(base[f[1]][0], spec)), fresh(f"retypedval{f[1]}", 66.5)])
-            elif f[0] == "relabel":
+            elif f[0] in ("relabel", "relabel_falsy"):
                 lab = list(base[f[1]][0])
-                lab[0] = _unknown_item(spec[0])
+                lab[0] = _unknown_item(spec[0], falsy=f[0].endswith("falsy"))
                 base[f[1]] = [tuple(lab), base[f[1]][1]]
-            elif f[0] == "extra_row":
+            elif f[0] in ("extra_row", "extra_row_falsy"):
                 lab = list(base[f[1]][0])
-                lab[-1] = _unknown_item(spec[-1])
-                adds.append([tuple(lab), fresh(f"extraval{f[1]}", 55.5)])
+                lab[-1] = _unknown_item(spec[-1], falsy=f[0].endswith("falsy"))
+                adds.append([tuple(lab), fresh(f"extraval{f[0][9:]}{f[1]}", 55.5)])
             elif f[0] == "blank_nan":
                 base[f[1]] = [base[f[1]][0], float("nan")]
             elif f[0] == "blank_none":
